@@ -333,6 +333,38 @@ func (s *SUT) RaceReports() int {
 	return n
 }
 
+// RacePairs returns the distinct (accessing function, previous-access function) pairs of the race
+// reports written so far, line numbers stripped, with one full report each.
+func (s *SUT) RacePairs() map[string]string {
+	out := map[string]string{}
+	files, _ := filepath.Glob(s.RaceLog + ".*")
+	for _, f := range files {
+		b, _ := os.ReadFile(f)
+		for _, blk := range strings.Split(string(b), "WARNING: DATA RACE")[1:] {
+			var fns []string
+			lines := strings.Split(blk, "\n")
+			for i, ln := range lines {
+				t := strings.TrimSpace(ln)
+				if (strings.HasPrefix(t, "Write at") || strings.HasPrefix(t, "Read at") || strings.HasPrefix(t, "Previous write at") || strings.HasPrefix(t, "Previous read at")) && i+1 < len(lines) {
+					fn := strings.TrimSpace(lines[i+1])
+					if j := strings.Index(fn, "("); j > 0 {
+						fn = fn[:j]
+					}
+					fns = append(fns, fn)
+				}
+			}
+			key := strings.Join(fns, " / ")
+			if _, seen := out[key]; !seen {
+				if len(blk) > 1500 {
+					blk = blk[:1500]
+				}
+				out[key] = "WARNING: DATA RACE" + blk
+			}
+		}
+	}
+	return out
+}
+
 // ---------------------------------------------------------------- agent
 
 // AgentCmd is one command for the in-process agent; see agent/agent_test.go.
